@@ -674,3 +674,86 @@ def run_C17(ctx):
         "whose rings are told apart by configured sizes; TLC validates (thread, event id, slice) of each dispatch. Custom listener ids "
         "over the 64-bit range (reserved, nq+1, 255, 65535, 65536+k, 2^32+k, 2^48+k, 2^63+k, 2^64-1) are registered and fired.",
         ASSUME_COMMON, viol)
+
+
+POOL_LO = [0, 2, 1, 8, 0]
+POOL_HI = [2, 4, 3, 10, 2]
+MEM_NEG = dict(op="negotiate", feats=[30], pf=[3, 13, 15, 1])
+
+
+def mem_pool(rnd):
+    G = rnd.choice([0x1000, 0x10_0000, 0x7f00_0000_0000, (1 << 64) - 0x40000])
+    uas = [0x7000_0000_0000, 0x1000, (1 << 64) - 0x100000, 0x5555_0000_0000, 0x1234_5678_0000]
+    rnd.shuffle(uas)
+    return [dict(gpa=limbs(G + POOL_LO[r] * 0x1000), size=limbs((POOL_HI[r] - POOL_LO[r]) * 0x1000), ua=limbs(uas[r]),
+                 off=limbs(rnd.choice([0, 0x1000, 0x3000]))) for r in range(5)], G
+
+
+def mem_letter(a):
+    if a["op"] == "set_mem_table":
+        return dict(op="set_mem_table", rids=a["rids"], badfd=a["bad"])
+    if a["op"] == "add_mem_reg":
+        return dict(op="add_mem_reg", rid=a["rid"], badfd=a["bad"])
+    return dict(op="rem_mem_reg", rid=a["rid"], size_delta=a["delta"], badfd=False)
+
+
+def mem_probes(pool, G, xl_rid):
+    ps = []
+    for r in range(5):
+        size = (POOL_HI[r] - POOL_LO[r]) * 0x1000
+        ps.append(dict(op="probe_mem", rid=r, o=limbs(0), page=POOL_LO[r]))
+        ps.append(dict(op="probe_mem", rid=r, o=limbs(size - 8), page=POOL_HI[r] - 1))
+        if G + POOL_LO[r] * 0x1000 > 0:
+            ps.append(dict(op="probe_addr", gpa=limbs(G + POOL_LO[r] * 0x1000 - 1), page=POOL_LO[r] - 1))
+        ps.append(dict(op="probe_addr", gpa=limbs((G + POOL_HI[r] * 0x1000) % (1 << 64)), page=POOL_HI[r]))
+    ps.append(dict(op="set_vring_addr", q=0, rid=xl_rid, odesc=limbs(0x10), oavail=limbs(0x102), oused=limbs(0x204)))
+    return ps
+
+
+def run_C13(ctx):
+    trans = ctx.tlc_mc("MC_Mem", "MC_Mem_" + ctx.tier)
+    rnd = random.Random(ctx.seed)
+    cases = []
+    for i, c in enumerate(trans):
+        pool, G = mem_pool(rnd)
+        letters = [mem_letter(a) for a in c["steps"]]
+        steps = [MEM_NEG]
+        for j, lt in enumerate(letters):
+            steps.append(lt)
+            if ctx.tier == "thorough" and j < len(letters) - 1:
+                steps += mem_probes(pool, G, rnd.randrange(5))[:-1]
+        # the translation probe of a region outside the table ends the connection: one session per probed region
+        for xl in range(5):
+            st = steps + (mem_probes(pool, G, xl) if xl == i % 5 else mem_probes(pool, G, xl)[-1:])
+            cases.append(dict(nq=1, masks=[1], pool=pool, vring="rwlock" if i % 2 else "mutex", adapter=("arc", "mutex", "rwlock")[i % 3], steps=st))
+    # all histories (no state merging) over single-region letters: history-dependent slips (stale translation entries ...)
+    hist = ctx.tlc_mc("MC_Mem", "MC_Mem_hist_" + ctx.tier)
+    depth = 3 if ctx.tier == "quick" else 4
+    hist = [c for c in hist if len(c["steps"]) == depth]
+    if ctx.tier == "quick":
+        hist = hist[::max(1, len(hist) // 3000)]
+    for i, c in enumerate(hist):
+        pool, G = mem_pool(rnd)
+        letters = [mem_letter(a) for a in c["steps"]]
+        touched = sorted({r for lt in letters for r in (lt.get("rids") or [lt.get("rid")])})
+        for k, xl in enumerate(touched):
+            st = [MEM_NEG] + letters + (mem_probes(pool, G, xl) if k == 0 else mem_probes(pool, G, xl)[-1:])
+            cases.append(dict(nq=1, masks=[1], pool=pool, vring="rwlock" if i % 2 else "mutex", steps=st))
+    cases = replay_or(ctx, "daemon", cases)
+    tr = ctx.harness("daemon", cases, shards=12)
+    viol = ctx.tlc_tv("TV_Mem", tr, "daemon")
+    ctx.count_distinct(tr, lambda e: (e.get("op"), json.dumps(e.get("letter", {}).get("rids", e.get("letter", {}).get("rid"))), e.get("status"), json.dumps(e.get("out"))),
+                       lambda e: e.get("ev") == "step" and e.get("op") != "negotiate")
+    ctx.sample(tr, 2, skip=3)
+    ctx.exhaustive = True
+    return ctx.finish("model_checking",
+        "MemTable.tla over a pool of 5 candidate regions (adjacent, overlapping, far, duplicate range with another file): every (table, "
+        "update) transition -- SET_MEM_TABLE with lists of 1..2 (3 thorough) regions incl. unordered/overlapping/duplicate lists and a "
+        "non-mmapable descriptor, ADD_MEM_REG, REM_MEM_REG of absent / size-mismatched regions -- is model-checked (no overlap ever in the "
+        "table) and replayed on a real daemon with concrete geometries drawn per case (guest bases up to 2^64-0x40000, user ranges anywhere "
+        "in 64-bit space, mmap offsets 0/0x1000/0x3000). After the update: bytes written through each pool file at mmap_offset+o are read "
+        "through the backend's guest memory at gpa+o and back, edges +-1 are probed, the update_memory snapshot and count are compared, and "
+        "a SET_VRING_ADDR with user addresses inside one pool region checks the translation through the queue's addresses.",
+        ASSUME_COMMON + ["whether a legal but unsorted table is accepted is left open (only consistency with the reported outcome is judged)",
+                         "the daemon ends the connection after a failed update; the memory state is then probed through the handle the backend was given"],
+        viol)
